@@ -276,6 +276,8 @@ def run(chk, S: Session):
     _run_own(chk, S)
     from ..harness import borrow
 
-    rb = chk.rule("R-C15-B", "clauses of this statement decided by rules of C07 (contraction rate independent of the leaf structure) and C18 (step helpers consume the whole pytree state)", floor=3)
+    rb = chk.rule("R-C15-B", "clauses of this statement decided by rules of C07 (contraction rate independent of the leaf structure), C18 (step helpers consume the whole pytree state) and C10 (the flat wrapper of a pytree problem differentiates explicit time like the flat problem)", floor=3)
     borrow(chk, S, rb, "C07", lambda r, c: r == "R-C07-3")
     borrow(chk, S, rb, "C18", lambda r, c: r == "R-C18-2" and "whole pytree" in c)
+    # the Taylor coefficients of a pytree state are computed through a flat wrapper of the vector field: the wrapper must differentiate what the flat problem differentiates
+    borrow(chk, S, rb, "C10", lambda r, c: r == "R-C10-1")
